@@ -149,15 +149,70 @@ def field_array(fd, n):
     return np.array(vals, dtype=dt).reshape(*n, fd["nvdim"])
 
 
+CALLER_DICTS = []      # (field, the dict handed to the constructor, its items at that time) of the current case
+
+
 def build_field(fd, meshes, own_mesh=None):
+    f = build_field_(fd, meshes, own_mesh)
+    return f
+
+
+def build_field_(fd, meshes, own_mesh=None):
     mesh = meshes[fd["mesh"]] if own_mesh is None else own_mesh
     arr = field_array(fd, [int(k) for k in mesh.n])
     valid = np.array(fd["valid"], dtype=bool).reshape(*mesh.n)
     vmap = fd.get("vmap")
     if vmap is not None:
         vmap = dict(vmap) if not isinstance(vmap, list) else {k: v for k, v in vmap}   # list keeps insertion order
-    return df.Field(mesh, nvdim=fd["nvdim"], value=arr, dtype=arr.dtype, valid=valid,
-                    vdims=fd.get("vdims"), vdim_mapping=vmap, unit=fd.get("unit"))
+    f = df.Field(mesh, nvdim=fd["nvdim"], value=arr, dtype=arr.dtype, valid=valid,
+                 vdims=fd.get("vdims"), vdim_mapping=vmap, unit=fd.get("unit"))
+    if vmap is not None:
+        CALLER_DICTS.append((f, vmap, list(vmap.items())))
+    return f
+
+
+def caller_dict_clauses(rec):
+    """the dict given to the Field constructor is neither kept (aliased) nor modified"""
+    for f, d, items in CALLER_DICTS:
+        if f.vdim_mapping is d:
+            rec["oracle"].append("constructor-aliases-caller-dict")
+        if list(d.items()) != items:
+            rec["oracle"].append("caller-dict-modified")
+
+
+def through_result_clauses(r, leaves, rec):
+    """a result owns its mapping dict, mask and array: changing them through the result leaves every
+    operand as it was.  Destroys r - call last."""
+    if not isinstance(r, df.Field) or any(r is f for f in leaves):
+        return
+    for f in leaves:
+        if r.vdim_mapping is f.vdim_mapping:
+            rec["oracle"].append("result-shares-mapping-dict")
+    before = [snapshot(f) for f in leaves]
+    dims = list(r.mesh.region.dims)
+
+    def item_assign():
+        vm = r.vdim_mapping
+        if len(vm):
+            k0 = next(iter(vm))
+            vm[k0] = dims[-1] if vm[k0] != dims[-1] else "changed"
+        vm["probe_key"] = dims[0]
+
+    def relabel():
+        r.vdim_mapping.pop("probe_key", None)
+        if r.vdims is not None:
+            r.vdims = [f"n{j}w" for j in range(r.nvdim)]
+
+    def write_valid():
+        r.valid[...] = ~r.valid
+
+    def write_array():
+        r.array[...] = 0
+        r.array += 1
+    for fn in (item_assign, relabel, write_valid, write_array):
+        attempt(fn)
+    if [snapshot(f) for f in leaves] != before:
+        rec["oracle"].append("operand-changed-through-result")
 
 
 def ctype_of(e):
@@ -1588,8 +1643,10 @@ def run_oracle_only(c, rec):
         for f in leaves:
             if r is not f and (np.shares_memory(r.array, f.array) or np.shares_memory(r.valid, f.valid)):
                 rec["oracle"].append("result-aliases-operand")
+        through_result_clauses(r, leaves, rec)
     elif st != "ok" and want is not None and c.get("expect") == "accept":
         rec["oracle"].append("valid-expression-rejected")
+    caller_dict_clauses(rec)
     rec.update(obs=obs, coq=None, key=f'{c["kind"]}/{st}/{shape_key(e, c)}', nontrivial=True,
                size=sum(len(fd["vals"]) for fd in c["fields"]))
     rec["oracle"] = sorted(set(rec["oracle"]))
@@ -1598,6 +1655,7 @@ def run_oracle_only(c, rec):
 
 def run_case(c):
     rec = dict(kind=c["kind"], case=c, oracle=[], tags=[])
+    del CALLER_DICTS[:]
     if c.get("oracle_only"):
         return run_oracle_only(c, rec)
     meshes = [build_mesh(m) for m in c["meshes"]]
@@ -1689,6 +1747,9 @@ def run_case(c):
                 rec["oracle"].append("valid-expression-rejected")
             except Exception:  # noqa: BLE001
                 pass
+        if st == "ok":
+            through_result_clauses(r, leaves, rec)
+        caller_dict_clauses(rec)
         rec.update(obs=obs, coq=None, key=key + "/nonfinite", size=size, nontrivial=False)
         rec["oracle"] = sorted(set(rec["oracle"]))
         return rec
@@ -1800,6 +1861,7 @@ def run_case(c):
             if not (np.array_equal(r.array, field_dtype(f0.array)) and np.array_equal(r.valid, f0.valid)
                     and r.nvdim == f0.nvdim and r.mesh == f0.mesh):
                 rec["oracle"].append("stacked-components-differ")
+        through_result_clauses(r, leaves, rec)
     else:
         ro = None
         if expect == "accept" and ref is not None:
@@ -1823,6 +1885,7 @@ def run_case(c):
         coq = (f"CExpr {g.q(tol)} {g.lst([mesh_lit(m) for m in meshes])} "
                f"{g.lst([field_lit(o) for o in leaf_obs])} {expr_coq(e)} {t1} {t2} {obs_lit} {al}")
         obs["exact"] = bool(exact)
+    caller_dict_clauses(rec)
     rec.update(obs=obs, coq=coq, key=key, size=size, nontrivial=True)
     rec["oracle"] = sorted(set(rec["oracle"]))
     rec["tags"] = sorted(set(rec["tags"]))
